@@ -14,16 +14,23 @@ def strip_refs(s):
 class C13(Prop):
     pid = "C13"
     title = "version information is reported completely and unaltered"
-    thm_modules = ["PeliteModel.Thm.C13"]
-    gens = [gen_version.gen_wellformed, gen_version.gen_variants, gen_version.gen_corrupt,
+    thm_modules = ["PeliteModel.Thm.C13", "PeliteModel.Thm.C13Queries"]
+    gens = [gen_version.gen_wellformed, gen_version.gen_layouts, gen_version.gen_variants, gen_version.gen_corrupt,
             gen_version.gen_small, gen_version.gen_langparse, gen_version.gen_zero_records]
 
     def oracle(self, op, impl, model, spec):
         """implementation against the specification's answer computed from the abstract tree"""
         if "tree=" not in op:
             return None
-        if spec_field(spec, "enc") == "0":
-            return "the generator's writer and the reference writer (Spec.encode) disagree on the block"
+        if "tree=L/" in op:
+            # a block of the generator's LayoutWriter: must be a documented layout of its tree
+            if spec_field(spec, "lay") != "1":
+                return "the generator's layout is not accepted as a documented layout of its tree (Spec.VInfo.isBlockB)"
+        else:
+            if spec_field(spec, "enc") == "0":
+                return "the generator's writer and the reference writer (Spec.encode) disagree on the block"
+            if spec_field(spec, "wf") == "1" and spec_field(spec, "lay") == "0":
+                return "the layout test (Spec.VInfo.isBlockB) rejects the reference writer's block"
         if spec_field(spec, "hyp") != "1":
             return None
         want = spec_field(spec, "spec")
